@@ -104,7 +104,10 @@ def uncommit(
                 parents = [new_revision_id]
             else:
                 parents = []
-            if tree is not None:
+            if tree is not None and parents:
+                # A tree whose basis is null: cannot carry pending merges: the
+                # first of them would become its basis revision while the
+                # branch is empty.
                 parents.extend(reversed(pending_merges))
             if branch.supports_tags() and not keep_tags:
                 # Remove the tags before moving the tips: setting the last
